@@ -762,17 +762,19 @@ class Sum(Binary):
 
     def __add__(self, value):
         try:
-            self.right.value += index(value)
+            value = self.right.value + index(value)
         except TypeError:
             return super().__add__(value)
+        return Sum(self.ebpf, self.left, Constant(self.ebpf, value))
 
     __radd__ = __add__
 
     def __sub__(self, value):
         try:
-            self.right.value -= index(value)
+            value = self.right.value - index(value)
         except TypeError:
-            return super().__add__(value)
+            return super().__sub__(value)
+        return Sum(self.ebpf, self.left, Constant(self.ebpf, value))
 
 
 class AndExpression(Binary):
